@@ -1,11 +1,11 @@
 package props
 
 import (
-	"strconv"
 	"fmt"
 	"go/types"
 	"math"
 	"sort"
+	"strconv"
 	"strings"
 
 	"tdxlint/internal/flow"
